@@ -14,6 +14,7 @@ import (
 	"encoding/json"
 	"fmt"
 	"math/big"
+	"reflect"
 	"sort"
 	"strings"
 	"time"
@@ -56,7 +57,9 @@ type driver struct {
 var max256 = new(big.Int).Sub(new(big.Int).Lsh(big.NewInt(1), 256), big.NewInt(1))
 
 // e19: n x 10^19 base units (10 ISLM) - every amount of the fixture is beyond 2^63 base units
-func e19(n int64) sdkmath.Int { return sdkmath.NewInt(n).Mul(sdkmath.NewInt(1000000000000000000)).MulRaw(10) }
+func e19(n int64) sdkmath.Int {
+	return sdkmath.NewInt(n).Mul(sdkmath.NewInt(1000000000000000000)).MulRaw(10)
+}
 
 func newDriver(tier string) *driver {
 	cp := coinomicstypes.DefaultParams()
@@ -677,6 +680,26 @@ func (d *driver) queries(w *world.World, path []string, res *engine.Result) {
 					break
 				}
 				pos += i + 1
+			}
+			// field by field: tokens, shares, status and jailed flag of every listed validator
+			if rv := reflect.ValueOf(out[0]); rv.Kind() == reflect.Slice && rv.Len() == len(nat.Validators) {
+				for i, v := range nat.Validators {
+					e := rv.Index(i)
+					get := func(name string) string {
+						f := e.FieldByName(name)
+						if !f.IsValid() {
+							return "<no field " + name + ">"
+						}
+						return fmt.Sprint(f.Interface())
+					}
+					if get("OperatorAddress") != v.OperatorAddress || get("Tokens") != v.Tokens.String() || get("DelegatorShares") != v.DelegatorShares.BigInt().String() ||
+						get("Jailed") != fmt.Sprint(v.Jailed) || get("Status") != fmt.Sprint(uint8(v.Status)) {
+						viol("staking.validators", "a listed validator's fields differ from the native answer", map[string]any{"status": status, "page": fmt.Sprint(pg), "index": i,
+							"got":  fmt.Sprintf("%s tokens=%s shares=%s jailed=%s status=%s", get("OperatorAddress"), get("Tokens"), get("DelegatorShares"), get("Jailed"), get("Status")),
+							"want": fmt.Sprintf("%s tokens=%s shares=%s jailed=%v status=%d", v.OperatorAddress, v.Tokens, v.DelegatorShares.BigInt(), v.Jailed, uint8(v.Status))})
+						break
+					}
+				}
 			}
 			if n := strings.Count(s, "haqqvaloper"); n != len(nat.Validators) {
 				viol("staking.validators", "number of validators differs from the native answer", map[string]any{"status": status, "page": fmt.Sprint(pg), "got": n, "want": len(nat.Validators)})
